@@ -60,6 +60,28 @@ func C02(c *Ctx) {
 		return out
 	}
 	c.ModelCheck(&dcfg)
+	// malformed UTF-8 in the input: positions stay a pure function of input and byte offset, every
+	// byte that is not part of a valid sequence counting as one rune (lead bytes followed by
+	// continuation bytes that do not complete a rune, surrogates, overlongs, stray bytes)
+	icfg := *cfg
+	icfg.Grammars = nil
+	icfg.NGrammars = c.N(50, 500)
+	icfg.InputsPer, icfg.ExhaustLimit = c.N(60, 150), 0
+	icfg.Invalid = true
+	icfg.Entrypoints = false
+	icfg.OptSets = []OptSet{{Name: "allow", AllowInvalid: true}, {Name: "default"}}
+	icfg.ExtraInputs = func(g *gast.Grammar, r *rand.Rand) [][]byte {
+		var out [][]byte
+		alpha := g.Alphabet()
+		for i := 0; i < 12; i++ {
+			s := g.Sentence(r, g.Rules[0].Name, alpha, 6)
+			cut := r.Intn(len(s) + 1)
+			bad := gast.InvalidSeqs[r.Intn(len(gast.InvalidSeqs))]
+			out = append(out, append(append(append([]byte{}, s[:cut]...), bad...), s[cut:]...))
+		}
+		return out
+	}
+	c.ModelCheck(&icfg)
 }
 
 func c02DeepStrata() []*gast.Grammar {
@@ -840,6 +862,18 @@ func C17(c *Ctx) {
 			for _, pre := range []string{"\xff\xfe", "\xfe\xff", "\xef\xbb\xbf", "\xff\xfe\x00\x00"} {
 				out = append(out, []byte(pre), []byte(pre+"a"), []byte(pre+"ab\xff"), []byte(pre+"a\x00b\x00"))
 			}
+			if strings.HasPrefix(g.Rules[0].Name, "Garbage") {
+				for _, n := range []int{130, 400, 1100, 3000} {
+					var b []byte
+					for i := 0; i < n; i++ {
+						b = append(b, gast.InvalidSeqs[r.Intn(len(gast.InvalidSeqs))]...)
+						if i%7 == 3 {
+							b = append(b, "ab\n"[i%3])
+						}
+					}
+					out = append(out, b)
+				}
+			}
 			return out
 		},
 	}
@@ -853,5 +887,10 @@ func c17Strata() []*gast.Grammar {
 	return []*gast.Grammar{
 		mk(r("S", gast.A(gast.S(gast.Star(gast.C(gast.L("�"), gast.Cl(gast.Chars("a�")), gast.A(gast.Dot(), 2, mon.Spec{R: 2}))), gast.NotE(gast.Dot())), 1, mon.Spec{}))),
 		mk(r("S", gast.S(gast.L("a�b"), gast.Star(gast.Cl(&gast.ClassSpec{Chars: []rune("�"), Inverted: true})), gast.Star(gast.Dot())))),
+		// damaged / binary input of some length: every invalid byte the parse advances onto is reported,
+		// the first as well as the three-thousandth (rule names Garbage*: see the extra inputs of C17)
+		mk(r("GarbageLinear", gast.S(gast.Star(gast.C(gast.Plus(gast.Cl(&gast.ClassSpec{Ranges: [][2]rune{{'a', 'z'}}})), gast.Dot())), gast.NotE(gast.Dot())))),
+		mk(r("GarbageBacktrack", gast.S(gast.Star(gast.C(gast.S(gast.Dot(), gast.L("1")), gast.S(gast.Dot(), gast.L("2")), gast.S(gast.Dot(), gast.L("3")), gast.S(gast.Dot(), gast.L("4")), gast.S(gast.Dot(), gast.L("5")), gast.S(gast.Dot(), gast.L("6")),
+			gast.S(gast.Cl(&gast.ClassSpec{Chars: []rune("�x")}), gast.L("7")), gast.Dot())), gast.NotE(gast.Dot())))),
 	}
 }
